@@ -98,7 +98,10 @@ def real_fn(m, metrics, dims):
         v = "value_error"
     d = None
     if v == []:   # compile() reaches the generator only after validation succeeded
-        d = SQLGenerator(layer.graph)._apply_default_time_dimensions(metrics, list(dims))
+        try:
+            d = SQLGenerator(layer.graph)._apply_default_time_dimensions(metrics, list(dims))
+        except Exception as e:  # noqa: BLE001 — an accepted query must not fail here; reported through the comparison
+            d = ["raised " + type(e).__name__]
     return {"dims": d, "validate": v}
 
 
